@@ -479,6 +479,56 @@ def rule_inplace(repo, tier):
     return res
 
 
+def _negdim_uses(fnode, dim='dim'):
+    """arithmetic / counting uses of the axis parameter that are only right for a non-negative value, made before any normalisation"""
+    normalised_at = None
+    for n in ast.walk(fnode):
+        if isinstance(n, ast.Assign) and any(isinstance(t, ast.Name) and t.id == dim for t in n.targets):
+            v = n.value
+            if (isinstance(v, ast.BinOp) and isinstance(v.op, ast.Mod)) or (isinstance(v, ast.IfExp)) or \
+                    (isinstance(v, ast.BinOp) and isinstance(v.op, ast.Add) and any(isinstance(x, ast.Call) for x in ast.walk(v))):
+                normalised_at = min(normalised_at or n.lineno, n.lineno)
+        if isinstance(n, ast.If) and any(isinstance(x, ast.Name) and x.id == dim for x in ast.walk(n.test)) and \
+                any(isinstance(a, (ast.AugAssign, ast.Assign)) and any(isinstance(x, ast.Name) and x.id == dim for x in ast.walk(a)) for a in n.body):
+            normalised_at = min(normalised_at or n.lineno, n.lineno)
+    out = []
+    for n in ast.walk(fnode):
+        ln = getattr(n, 'lineno', 0)
+        if normalised_at is not None and ln > normalised_at:
+            continue
+        if isinstance(n, ast.BinOp) and isinstance(n.op, (ast.Mult, ast.Add, ast.Sub)) and not isinstance(n.op, ast.Mod):
+            for a, b in ((n.left, n.right), (n.right, n.left)):
+                if isinstance(a, ast.Name) and a.id == dim and isinstance(b, (ast.Tuple, ast.List)):
+                    out.append((n, 'a tuple is repeated `%s` times' % dim))
+                elif isinstance(a, ast.Name) and a.id == dim and isinstance(n.op, ast.Mult) and isinstance(b, ast.Name) is False and not isinstance(b, ast.Constant):
+                    if any(isinstance(x, (ast.Tuple, ast.List)) for x in ast.walk(b)):
+                        out.append((n, 'a tuple is repeated `%s` times' % dim))
+        elif isinstance(n, ast.Call) and isinstance(n.func, ast.Name) and n.func.id == 'range' and any(isinstance(x, ast.Name) and x.id == dim for a in n.args for x in ast.walk(a)):
+            out.append((n, '`range` counts up to `%s`' % dim))
+        elif isinstance(n, ast.Slice) and any(isinstance(b, ast.Name) and b.id == dim for b in (n.lower, n.upper) if b is not None):
+            out.append((n, 'a shape / index tuple is sliced at `%s`' % dim))
+    return out
+
+
+@guarded
+def rule_negdim(repo, tier):
+    res = RuleResult('C12.NEGDIM', 'the scans accept every dimension in either sign ("every dimension"): the axis argument is handed to torch as it is, or '
+                     'normalised (dim % rank) before it is used as a count or an offset - (slice(None),) * dim is empty for a negative dim', floor=3)
+    for q in ('cumops_', 'cumops', 'cummul_', 'cumprod_', 'cummul', 'cumprod'):
+        f = repo.func(OPS, q)
+        if 'dim' not in f.params:
+            continue
+        uses = _negdim_uses(f.node)
+        res.inst({'function': f.fq, 'count / offset uses of dim before normalisation': [why for _, why in uses]}, f.fq)
+        for node, why in uses:
+            res.add(Finding('C12.NEGDIM', f, '`%s`: %s without normalising it first; for a negative dim (as valid as its non-negative twin) the count is '
+                            'empty / the offset is wrong and the scan runs along another dimension' % (src(node)[:60], why), node=node))
+    fx = ast.parse('def f(v, dim):\n    s = (slice(None),) * dim + (1,)\n    return v[s]\ndef g(v, dim):\n    dim = dim % v.dim()\n    s = (slice(None),) * dim + (1,)\n    return v[s]\n').body
+    if len(_negdim_uses(fx[0])) != 1 or len(_negdim_uses(fx[1])) != 0:
+        raise AnalysisError('C12.NEGDIM: fixtures no longer classified')
+    return res
+
+
 @guarded
 def rule_memo12(repo, tier):
     from ..memo import rule_memo
@@ -490,6 +540,6 @@ def rules(repo, tier):
     from ..optional import rule_optional
     from ..axisdefault import rule_axisdefault
     from ..stale import rule_stale
-    return [rule_ki(repo, tier), rule_role(repo, tier), rule_sb(repo, tier), rule_clone_alias(repo, tier), rule_deleg(repo, tier), rule_ext(repo, tier), rule_inplace(repo, tier), rule_memo12(repo, tier),
+    return [rule_ki(repo, tier), rule_role(repo, tier), rule_sb(repo, tier), rule_clone_alias(repo, tier), rule_deleg(repo, tier), rule_ext(repo, tier), rule_inplace(repo, tier), rule_negdim(repo, tier), rule_memo12(repo, tier),
             rule_stale(repo, 'C12.STALE', [(OPS, 'cumops_')]), rule_optional(repo, 'C12.OPT', [OPS]),
             rule_axisdefault(repo, 'C12.AXDEF', [OPS])]
